@@ -9,11 +9,14 @@ LEVEL_NOTE = ("Coq theorem C17_holds (files of every length): given an injective
 TRUSTED = ["Coq 8.16.1 kernel; no axioms", "SHA-256 injective on the files met (sha_inj); serde_json parse/pretty-print round trip (parse_render)",
            "a consistent rewrite of generated file and lockfile together is outside the property", "harness: tools/cfgscen.py file_facts (what a file parses to) uses Python's json",
            "modelled, not verified: the Rust source"]
-RULE = ("generated-file sizes {default, 8191, 8192, 8193, 20000} (thorough: up to 300 KiB) x tamper target {source, generated, lockfile checksum, missing lockfile, missing source} x "
+RULE = ("an exhaustive sweep: both a bit flip and an increment at EVERY offset of a generated file (thorough: also of the source), each of which two APIs must reject; then generated-file sizes {default, 8191, 8192, 8193, 20000} (thorough: up to 300 KiB) x tamper target {source, generated, lockfile checksum, missing lockfile, missing source} x "
         "{edit, append, truncate} x position class; each case = untouched phase (4 APIs must succeed) + tampered phase (7 APIs must fail and do nothing); non-trivial = generated file "
         "> 8 KiB or a tamper phase; distinct by (size, target, kind, position)")
 def run(ctx, scale): cfgscen.run_c17(ctx, scale)
 def replay(ctx, case):
     c = case.get("case", case)
+    if "sweep" in c:
+        cfgscen.c17_sweep(ctx, ctx.rng, c.get("stride", 1), c["sweep"])
+        return {"spec_failures": [d for _, d in ctx.spec_failures][:3]}
     cfgscen.c17_case(ctx, ctx.rng, c.get("gen_size"), c.get("tamper", "gen"), c.get("kind", "append"), c.get("pos", "last"))
     return {"spec_failures": [d for _, d in ctx.spec_failures][:3], "disagreements": [d for _, d in ctx.tie_breaks][:3]}
